@@ -723,7 +723,9 @@ func (ce *callEngine) callNativeFunc(ctx context.Context, m *wasm.ModuleInstance
 		// how the stack is modified, etc.
 		switch op.Kind {
 		case operationKindBuiltinFunctionCheckExitCode:
-			if err := m.FailIfClosed(); err != nil {
+			// Check the module whose function was called through the API: that is the one
+			// closed on context done, whichever instance's code is running now.
+			if err := ce.f.moduleInstance.FailIfClosed(); err != nil {
 				panic(err)
 			}
 			frame.pc++
